@@ -260,6 +260,8 @@ def sessions(ctx):
     if not quick:
         jobs.append(('1m', ('5m',), False, 5005, 4990, False, 0, emb))     # crosses the store's 5000-row bucket
         jobs.append(('5m', ('15m',), False, 5010, 4990, True, 0, emb))
+        jobs.append(('1m', ('15m',), False, 10010, 10000, False, 0, emb))   # ... and twice the bucket
+        jobs.append(('5m', ('15m',), False, 10010, 10000, True, 0, emb))
     return jobs
 
 
